@@ -458,7 +458,7 @@ func genWorkload(c simkit.Chooser, maxOps int) *workload {
 			case 1:
 				d = time.Duration(wl.flushSecs)*time.Second + time.Duration(1+c.Intn(3, "adv-over"))*time.Second
 			default:
-				d = time.Duration(1+c.Intn(48, "adv-h")) * time.Hour
+				d = time.Duration(5+c.Intn(40, "adv-m")) * time.Minute
 			}
 			wl.steps = append(wl.steps, step{kind: stAdvance, adv: d})
 			wl.nOps++
